@@ -147,10 +147,10 @@ class StateVector:
         ax = self.labels.index(label)
         t = np.moveaxis(self._tensor(), ax, 0)
         p1 = float(np.sum(np.abs(t[1]) ** 2))
-        out = want if want is not None else (1 if p1 > 0.5 else 0)
-        if out == 1 and p1 < 1e-12:
+        out = want if want is not None else 0  # deterministic default (no dependence on rounding noise)
+        if out == 1 and p1 < 1e-9:
             out = 0
-        if out == 0 and 1 - p1 < 1e-12:
+        if out == 0 and 1 - p1 < 1e-9:
             out = 1
         proj = np.zeros_like(t)
         proj[out] = t[out]
